@@ -1,4 +1,6 @@
 import PEval.Lemmas.DatasetExample
+import PEval.Lemmas.DatasetVelocity
+import PEval.Lemmas.DatasetTransformBridge
 /-!
 # C16 — loading a dataset reproduces its annotations as ground-truth frames
 
@@ -942,5 +944,207 @@ example : ((sampleToFrame2D exTables2D ⟨"TRACKING2D", "autoware", true, ["CAM_
     some ([("j0", "UNKNOWN", ["vehicle.moving"]), ("j3", "UNKNOWN", [])], true) := by decide +kernel
 example : truncInt (-7 / 2) = -3 ∧ truncInt (1109 / 10) = 110 ∧ lastSegment "a::b:" = "" ∧ lastSegment "77" = "77" := by
   decide +kernel
+
+/-! ## audit round 2: velocities when the two sample times coincide
+
+`velocityOf` computes `d / (tl − tf)` with Lean's total division (`x / 0 = 0`).  Python (`_get_box_velocity`, which the
+loader uses for every object, dataset_utils.py:322-379; the devkit's `box_velocity`, used for the tracked states)
+divides a numpy array by the float `time_diff`: for `time_diff = 0.0` it returns `inf` / `-inf` / `nan` components
+without raising, and `0 <= max_time_diff` passes the bound.  `velocityPy` returns that outcome explicitly
+(`Vel.div0 d`).  First / last annotation of an instance: the missing side is the annotation itself (one-sided
+difference); no neighbour at all: no estimate.  Equal times need two samples with the same timestamp, or a `prev` /
+`next` link into the annotation's own sample — excluded by the schema (`TimeOrdered`), not by `WellFormed`. -/
+
+/-- for ALL tables the total-division model is the Lean view of the Python outcome (`div0 d ↦ some (d / 0)`) -/
+theorem velocity_py_refines (T : Tables) (fr : Bool) (a : Annotation) :
+    velocityOf T fr a = (match velocityPy T fr a with
+      | .ok v => .ok v.leanView
+      | .error e => .error e) := velocityOf_eq_leanView T fr a
+
+/-- the formula with Python's outcome: as `velocity_formula`, and for `tl − tf = 0` the division-by-zero outcome
+carrying the displacement (components `inf` / `-inf` / `nan` by the sign of its components: `Vel.div0Comps`) -/
+theorem velocity_formula_py (T : Tables) (objectFrame : Bool) (a first last : Annotation) (tf tl : Rat)
+    (hsome : a.prev ≠ "" ∨ a.next ≠ "")
+    (hfirst : if a.prev = "" then first = a else lookup Annotation.token T.annotations a.prev = .ok first)
+    (hlast : if a.next = "" then last = a else lookup Annotation.token T.annotations a.next = .ok last)
+    (htf : secsOf T first.sampleToken = .ok tf) (htl : secsOf T last.sampleToken = .ok tl) :
+    velocityPy T objectFrame a = .ok
+      (if tl - tf ≤ (if a.prev ≠ "" ∧ a.next ≠ "" then 3 else 3 / 2) then
+        (if tl - tf = 0 then
+          .div0 (if objectFrame then rotate first.rotation.conj (last.translation.sub first.translation)
+                 else last.translation.sub first.translation)
+         else .finite (((if objectFrame then rotate first.rotation.conj (last.translation.sub first.translation)
+                else last.translation.sub first.translation)).divBy (tl - tf)))
+       else .none) :=
+  velocityPy_formula T objectFrame a first last tf tl hsome hfirst hlast htf htl
+
+/-- `velocity_formula` with the guard the audit asked for: when the two times differ, the total-division model and
+Python's outcome are the same estimate -/
+theorem velocity_formula_guarded (T : Tables) (objectFrame : Bool) (a first last : Annotation) (tf tl : Rat)
+    (hsome : a.prev ≠ "" ∨ a.next ≠ "")
+    (hfirst : if a.prev = "" then first = a else lookup Annotation.token T.annotations a.prev = .ok first)
+    (hlast : if a.next = "" then last = a else lookup Annotation.token T.annotations a.next = .ok last)
+    (htf : secsOf T first.sampleToken = .ok tf) (htl : secsOf T last.sampleToken = .ok tl) (hne : tl ≠ tf) :
+    ∃ v, velocityOf T objectFrame a = .ok v ∧ velocityPy T objectFrame a = .ok (Vel.ofOption v) ∧
+      v = (if tl - tf ≤ (if a.prev ≠ "" ∧ a.next ≠ "" then 3 else 3 / 2) then
+        some (((if objectFrame then rotate first.rotation.conj (last.translation.sub first.translation)
+                else last.translation.sub first.translation)).divBy (tl - tf))
+       else none) := by
+  refine ⟨_, velocity_formula T objectFrame a first last tf tl hsome hfirst hlast htf htl, ?_, rfl⟩
+  rw [velocityPy_formula T objectFrame a first last tf tl hsome hfirst hlast htf htl]
+  have hz : ¬ (tl - tf = 0) := by intro e; apply hne; grind
+  simp only [hz, if_false]
+  have key : ∀ (c : Prop) [Decidable c] (x : Vec3),
+      Vel.ofOption (if c then some x else none) = (if c then Vel.finite x else Vel.none) := by
+    intro c _ x; by_cases hc : c <;> simp [hc, Vel.ofOption]
+  rw [key]
+
+/-- the excluded class, characterised: equal times ⇒ Python's outcome is the division by zero of the displacement,
+whereas the total-division model answers the zero vector (an artefact of `x / 0 = 0`, not what the code returns) -/
+theorem velocity_div0_outcome (T : Tables) (objectFrame : Bool) (a first last : Annotation) (t : Rat)
+    (hsome : a.prev ≠ "" ∨ a.next ≠ "")
+    (hfirst : if a.prev = "" then first = a else lookup Annotation.token T.annotations a.prev = .ok first)
+    (hlast : if a.next = "" then last = a else lookup Annotation.token T.annotations a.next = .ok last)
+    (htf : secsOf T first.sampleToken = .ok t) (htl : secsOf T last.sampleToken = .ok t) :
+    velocityPy T objectFrame a = .ok (.div0 (if objectFrame then
+        rotate first.rotation.conj (last.translation.sub first.translation)
+      else last.translation.sub first.translation)) ∧
+    velocityOf T objectFrame a = .ok (some ⟨0, 0, 0⟩) := by
+  have hb : t - t ≤ (if a.prev ≠ "" ∧ a.next ≠ "" then (3 : Rat) else 3 / 2) := by
+    split <;> grind
+  have hz : t - t = 0 := by grind
+  constructor
+  · rw [velocityPy_formula T objectFrame a first last t t hsome hfirst hlast htf htl]
+    rw [if_pos hb, if_pos hz]
+  · rw [velocity_formula T objectFrame a first last t t hsome hfirst hlast htf htl]
+    rw [if_pos hb, hz]
+    simp only [Vec3.divBy, Rat.div_def, Rat.inv_zero, Rat.mul_zero]
+
+/-- on referentially intact tables whose `prev` / `next` links go strictly back / forward in time (the schema), no
+velocity is a division by zero, and the total-division model represents Python's outcome faithfully -/
+theorem velocity_no_div0 (T : Tables) (wf : WellFormed T) (ord : TimeOrdered T) (objectFrame : Bool) (a : Annotation)
+    (ha : a ∈ T.annotations) :
+    ∃ v, velocityPy T objectFrame a = .ok v ∧ v.isDiv0 = false ∧ velocityOf T objectFrame a = .ok v.toOption ∧
+      v = Vel.ofOption v.toOption := by
+  obtain ⟨v, hv⟩ := velocityPy_ok wf objectFrame ha
+  have hd := velocityPy_no_div0 wf ord objectFrame ha hv
+  obtain ⟨h1, h2⟩ := leanView_of_not_div0 hd
+  refine ⟨v, hv, hd, ?_, h2⟩
+  rw [velocityOf_eq_leanView, hv]
+  simp only [h1]
+
+/-- every loaded object carries Python's `_get_box_velocity` outcome of its annotation, and on time-ordered
+well-formed tables that outcome is an ordinary estimate or `None` -/
+theorem objects_velocity_py (T : Tables) (cfg : Config) (n : Nat) (s : Sample) (f : Frame)
+    (wf : WellFormed T) (ord : TimeOrdered T) (h : sampleToFrame T cfg n s = .ok f) :
+    List.Forall₂ (fun a o => ∃ v, velocityPy T true a = .ok v ∧ v.isDiv0 = false ∧ o.velocity = v.toOption)
+      (annsOf T s.token) f.objects := by
+  refine forall₂_imp (objects_velocity T cfg n s f h) ?_
+  intro a o ha hao
+  obtain ⟨v, hv, hd, hof, _⟩ := velocity_no_div0 T wf ord true a (annsOf_mem ha).1
+  rw [hof] at hao
+  exact ⟨v, hv, hd, (Except.ok.inj hao).symm⟩
+
+/-- the example tables are time-ordered -/
+theorem exTables_timeOrdered : TimeOrdered exTables := timeOrderedB_sound (by decide +kernel)
+
+/-- the example tables with both samples stamped alike: referentially intact, NOT time-ordered -/
+def exTablesSameTime : Tables :=
+  { exTables with samples := [⟨"s0", 1600000000000000, 1600000000⟩, ⟨"s1", 1600000000000000, 1600000000⟩] }
+
+example : timeOrderedB exTablesSameTime = false := by decide +kernel
+/-- on them Python's outcome is the division by zero (`inf`, `inf`, `nan` for the devkit's function), the
+total-division model says 0: `velocityOf` alone does NOT describe the code there — `velocityPy` does -/
+example : velocityPy exTablesSameTime false exA0 = .ok (.div0 ⟨2, 1, 0⟩) ∧
+    Vel.div0Comps ⟨2, 1, 0⟩ = [.posInf, .posInf, .nan] ∧
+    velocityOf exTablesSameTime false exA0 = .ok (some ⟨0, 0, 0⟩) ∧
+    velocityPy exTablesSameTime true exA0 = .ok (.div0 ⟨38 / 25, -41 / 25, 0⟩) := by decide +kernel
+/-- the statement of `velocity_no_div0` fails without `TimeOrdered` -/
+example : ¬ (∀ a ∈ exTablesSameTime.annotations, ∀ v, velocityPy exTablesSameTime true a = .ok v → v.isDiv0 = false) := by
+  intro h
+  have := h exA0 (by decide +kernel) (.div0 ⟨38 / 25, -41 / 25, 0⟩) (by decide +kernel)
+  cases this
+example : velocityPy exTables false exA0 = .ok (.finite ⟨4, 2, 0⟩) := by decide +kernel
+example : ∃ v, velocityPy exTables true exA0 = .ok v ∧ v.isDiv0 = false :=
+  let ⟨v, h1, h2, _⟩ := velocity_no_div0 exTables exTables_wellFormed exTables_timeOrdered true exA0 (by decide +kernel)
+  ⟨v, h1, h2⟩
+
+/-! ## audit round 2: any lidar calibration; non-unit quaternions -/
+
+/-- the general pose law (C16-5): whatever the lidar's calibration, an object requested in the "ego" frame carries the
+annotated pose moved by the inverse ego pose AND THEN by the inverse pose of the calibrated lidar — i.e. it is
+expressed in the lidar's frame; only for a lidar calibrated at the ego origin (`ego_pose_eq_moved`) is that the ego
+frame.  Requested in the map frame it is the annotated pose for every calibration (`map_pose_eq_annotation`). -/
+theorem ego_pose_any_calibration (T : Tables) (cfg : Config) (n : Nat) (s : Sample) (f : Frame)
+    (sd : SampleData) (ego : EgoPose) (cs : CalibratedSensor)
+    (hb : cfg.frame = "BASE_LINK") (h : sampleToFrame T cfg n s = .ok f)
+    (hsd : lidarOf T s.token = .ok sd)
+    (hego : lookup EgoPose.token T.egoPoses sd.egoPoseToken = .ok ego)
+    (hcs : lookup CalibratedSensor.token T.calibratedSensors sd.calibratedSensorToken = .ok cs) :
+    List.Forall₂ (fun a o => o.pose =
+        moveInv cs.translation cs.rotation (moveInv ego.translation ego.rotation (annPose a)))
+      (annsOf T s.token) f.objects := by
+  obtain ⟨sd', ego', cs', hsd', hego', hcs', _, _, _, hall⟩ := sampleToFrame_objects h
+  rw [hsd] at hsd'; cases hsd'
+  rw [hego] at hego'; cases hego'
+  rw [hcs] at hcs'; cases hcs'
+  refine forall₂_imp hall ?_
+  intro a o _ hao
+  obtain ⟨pose, _, _, _, _, _, hpose, _, _, _, _, _, _, rfl⟩ := objectOf_ok hao
+  simp only [boxPose, hb, if_true, Except.ok.injEq] at hpose
+  exact hpose.symm
+
+/-- with a lidar off the ego origin the stored ego→map transform does NOT map the loaded pose back onto the annotation
+(translation by (1,0,0), identity rotations everywhere): the restriction "lidar calibrated at the ego origin" of the
+property text is necessary -/
+example : applyPose ⟨Vec3.zero, Quat.one⟩ (moveInv ⟨1, 0, 0⟩ Quat.one (moveInv Vec3.zero Quat.one ⟨⟨5, 0, 0⟩, Quat.one⟩)) ≠
+    ⟨⟨5, 0, 0⟩, Quat.one⟩ := by decide +kernel
+
+/-- the normalising variants (what pyquaternion / the devkit compute for ANY non-zero quaternion) coincide with the
+model's plain ones on unit quaternions — so on unit ego rotations `ego_pose_eq_moved` / `ego_pose_roundtrip` speak about
+the devkit's computation -/
+theorem nonunit_variants_agree_on_unit (t : Vec3) (q : Quat) (hq : q.normSq = 1) (p : Pose) :
+    moveInvN t q p = moveInv t q p ∧ applyPoseN ⟨t, q⟩ p = applyPose ⟨t, q⟩ p :=
+  ⟨moveInvN_of_unit t q hq p, applyPoseN_of_unit ⟨t, q⟩ p hq⟩
+
+/-- for EVERY non-zero quaternion (unit or not) the normalising computation round-trips: same position, orientation
+equal up to the positive factor `|q|²` (the same rotation) -/
+theorem pose_roundtrip_any_nonzero (t : Vec3) (q : Quat) (hq : q.normSq ≠ 0) (p : Pose) :
+    (applyPoseN ⟨t, q⟩ (moveInvN t q p)).pos = p.pos ∧
+    (applyPoseN ⟨t, q⟩ (moveInvN t q p)).rot =
+      ⟨q.normSq * p.rot.w, q.normSq * p.rot.x, q.normSq * p.rot.y, q.normSq * p.rot.z⟩ ∧ 0 < q.normSq :=
+  applyPoseN_moveInvN t q hq p
+
+/-- the plain (non-normalising) model does NOT round-trip on a non-unit quaternion (`q = 2`: positions scale by 16): the
+hypothesis `ego.rotation.normSq = 1` of `ego_pose_roundtrip` is necessary for the MODEL; the normalising variant does -/
+example : applyPose ⟨Vec3.zero, ⟨2, 0, 0, 0⟩⟩ (moveInv Vec3.zero ⟨2, 0, 0, 0⟩ ⟨⟨1, 2, 3⟩, Quat.one⟩) =
+      ⟨⟨16, 32, 48⟩, ⟨4, 0, 0, 0⟩⟩ ∧
+    (applyPoseN ⟨Vec3.zero, ⟨2, 0, 0, 0⟩⟩ (moveInvN Vec3.zero ⟨2, 0, 0, 0⟩ ⟨⟨1, 2, 3⟩, Quat.one⟩)).pos = ⟨1, 2, 3⟩ := by
+  decide +kernel
+example : (⟨3/5, 0, 0, 4/5⟩ : Quat).normSq = 1 ∧ (⟨2, 0, 0, 0⟩ : Quat).normSq ≠ 0 := by decide +kernel
+
+/-! ## audit round 2: the stored transform as the C18 object (C16-4) -/
+
+/-- `ego_pose_roundtrip` stated with the C18 model of `HomogeneousMatrix`: the frame's ego→map pose, read as the
+transform registered under the key `(BASE_LINK, MAP)` and applied with C18's `transformPose`
+(`__transform_position_and_rotation`), maps every loaded ego-frame pose onto the annotated global pose.  (The two
+quaternion algebras are the same functions: `Dataset.applyPose_toT`.) -/
+theorem ego2map_is_c18_transform (T : Tables) (cfg : Config) (n : Nat) (s : Sample) (f : Frame)
+    (sd : SampleData) (ego : EgoPose) (cs : CalibratedSensor)
+    (hb : cfg.frame = "BASE_LINK") (h : sampleToFrame T cfg n s = .ok f)
+    (hsd : lidarOf T s.token = .ok sd)
+    (hego : lookup EgoPose.token T.egoPoses sd.egoPoseToken = .ok ego)
+    (hcs : lookup CalibratedSensor.token T.calibratedSensors sd.calibratedSensorToken = .ok cs)
+    (h0 : cs.translation = Vec3.zero) (h1 : cs.rotation = Quat.one)
+    (hu : ego.rotation.normSq = 1) :
+    (f.ego2map.toHM.src = "BASE_LINK" ∧ f.ego2map.toHM.dst = "MAP") ∧
+    List.Forall₂ (fun a o =>
+        Transform.transformPose f.ego2map.toHM (o.pose.pos.toT, o.pose.rot.toT) =
+          ((annPose a).pos.toT, (annPose a).rot.toT))
+      (annsOf T s.token) f.objects := by
+  refine ⟨⟨rfl, rfl⟩, ?_⟩
+  refine forall₂_imp (ego_pose_roundtrip T cfg n s f sd ego cs hb h hsd hego hcs h0 h1 hu) ?_
+  intro a o _ hao
+  rw [applyPose_toT, hao]
 
 end PEval.C16
